@@ -33,11 +33,14 @@ static std::string kind(const std::string& what)
 int main()
 {
   std::string line;
+  // ONE tag object for the whole stream, as a reader that deserializes each record's tag into the same std::string has it
+  // (doc/Mserialize.md): consecutive records then present different tags at the same address
+  std::string tag;
   while (std::getline(std::cin, line))
   {
     const std::size_t s1 = line.find(' ');
     const std::size_t s2 = line.find(' ', s1 + 1);
-    std::string tag, bytes;
+    std::string bytes;
     if (s1 == std::string::npos || s2 == std::string::npos || line.substr(0, s1) != "tagvisit"
         || ! unhex(line.substr(s1 + 1, s2 - s1 - 1), tag) || ! unhex(line.substr(s2 + 1), bytes))
     {
